@@ -16,7 +16,7 @@ class C07(Check):
             "schedule seed/policy, worker count, enumeration permutation and hash seed; non-trivial = first run changed a file; "
             "distinct = by experiment digest")
     assumptions = ["one re-run (the statement is about one)"]
-    budgets = {"quick": {"n": 130, "wall": 170}, "thorough": {"n": 1700, "wall": 1700}}
+    budgets = {"quick": {"n": 150, "wall": 170}, "thorough": {"n": 1700, "wall": 1700}}
 
     def extra_batches(self, tier):
         """one fixed experiment per listed known finding, so that each is demonstrated (or seen fixed) on every run"""
@@ -113,7 +113,11 @@ class C07(Check):
             cids = sorted({c for c, _ in again}) or exp["include"]
             paths = sorted({p for _, ps in again for p in ps} | set(second["changed"]))
             manifest = any(p.split("/")[-1] in G.MANIFEST_FILES for p in paths)
-            v.append({"clause": "second-run-changes", "key": "C07:not-a-fixed-point:" + ",".join(cids) + (":manifest" if manifest else ""),
+            # the key names the inputs (corpus snippet numbers, append-only) of the files the second run touched, so that a
+            # listed known finding covers that input only and another input failing for the same codemod is still reported
+            sn = sorted({x for f in exp["world_spec"]["files"] if f["path"] in paths for x in f.get("snippets", [])})
+            tag = "+".join(f"s{x}" for x in sn) or "raw"
+            v.append({"clause": "second-run-changes", "key": "C07:not-a-fixed-point:" + ",".join(cids) + (":manifest" if manifest else "") + ":" + tag,
                       "detail": {"codemods": cids, "paths": paths[:5], "changed_bytes": sorted(second["changed"])[:5],
                                  "mutating_events": muts[:3], "include": exp["include"]}})
         return v
